@@ -2,6 +2,7 @@ package rules
 
 import (
 	"fmt"
+	"go/types"
 	"strings"
 
 	"golang.org/x/tools/go/ssa"
@@ -150,6 +151,46 @@ func runC18(c *core.Ctx) {
 		}
 	}
 	r.Floor("c18.dedup-keeps-newest", 2)
+	// the entry taken out of the ordered buffer when a newer revision arrives is the one found in the seen map
+	if f := r.fn("c18.dedup-removes-superseded", lg, "(*propertyServer).sortedQueryWithDedup"); f != nil {
+		rule := "c18.dedup-removes-superseded"
+		n := 0
+		for _, in := range ssax.Find(f, ssax.CallTo("(*"+lg+".propertyServer).findPropertyInBuffer")) {
+			n++
+			args := in.(*ssa.Call).Call.Args
+			var fromMap, fresh bool
+			seen := map[ssa.Value]bool{}
+			var walk func(v ssa.Value)
+			walk = func(v ssa.Value) {
+				if v == nil || seen[v] {
+					return
+				}
+				seen[v] = true
+				switch x := v.(type) {
+				case *ssa.Lookup:
+					fromMap = true
+				case *ssa.Extract:
+					walk(x.Tuple)
+				case *ssa.Phi:
+					for _, e := range x.Edges {
+						walk(e)
+					}
+				case *ssa.Call:
+					if strings.HasSuffix(ssax.CalleeName(x.Common()), ".newPropertyWithCounts") {
+						fresh = true
+					}
+				}
+			}
+			for _, a := range args[1:] {
+				if _, ok := a.Type().Underlying().(*types.Pointer); ok {
+					walk(a)
+				}
+			}
+			r.Check(fromMap && !fresh, rule, fmt.Sprintf("%s: findPropertyInBuffer#%d looks up the superseded entry", ssax.FuncName(f), n), r.pos(in),
+				"the entry searched for (and removed) in the ordered result buffer must be the existing one from the seen map; searching for the new revision's entry finds nothing, the superseded revision stays in the buffer and the query returns two values for one key")
+		}
+		r.Floor(rule, 1)
+	}
 	if f := r.fn("c18.prev-is-newest", lg, "(*propertyServer).findPrevAndOlderProperties"); f != nil {
 		rule := "c18.prev-is-newest"
 		isRev := func(v ssa.Value) bool { return strings.HasSuffix(ssax.Path(v), ".ModRevision") }
